@@ -330,7 +330,14 @@ fn eval_loc_expr(
                     }
                 }
             }
-            //collected.dedup();
+            // A node reached from several context nodes is one node of the node-set; carried
+            // along twice it doubles the work of every later step (`a/../a/../a/..`). Nodes
+            // without a document-order key of their own are left alone.
+            let mut seen = HashSet::new();
+            collected.retain(|v| {
+                let key = document_order(v);
+                key.0 == 0 || seen.insert(key)
+            });
             nodes = collected;
         }
     }
